@@ -384,6 +384,7 @@ SKELETON_TARGETS = [
     ("wormhole._dilation.connector", "Connector", None),
     ("wormhole._dilation.connection", "DilatedConnectionProtocol", None),
     ("wormhole._dilation.subchannel", "SubChannel", None),
+    ("wormhole._dilation.subchannel", "SubchannelDemultiplex", None),   # C15: parked OPENs, hand-over to a listener
     ("wormhole._dilation.outbound", "Outbound", None),
     ("wormhole._dilation.outbound", "PullToPush", None),
     ("wormhole._dilation.inbound", "Inbound", None),
